@@ -300,7 +300,7 @@ class RunChild(Stage):
     name = 'run-child'
 
     def examples(self, tier):
-        return 24 if tier == 'quick' else 14 * 60
+        return 36 if tier == 'quick' else 14 * 60
 
     def gen(self, d, tier):
         n = d.int(0, 6)
@@ -308,7 +308,11 @@ class RunChild(Stage):
             # the program is a single word (an executable whose path contains a blank, a quote, a backslash...) followed by 0-2 words
             return dict(exe=d.choice(['child prog', "child's", 'a "b" c', 'back\\slash', 'plain', 'tab\there', 'x y z', '$HOME', 'a;b']),
                         after=[d.choice(AFTER) for _ in range(d.choice([0, 0, 0, 1, 2]))])
-        return [d.choice(AFTER) if d.chance(0.8) else d.text(PRINTABLE, 0, 8) for _ in range(n)]
+        words = [d.choice(AFTER) if d.chance(0.8) else d.text(PRINTABLE, 0, 8) for _ in range(n)]
+        if d.chance(0.5):
+            # one of wayland-debug's own option spellings among the program's words: forwarded, never acted upon
+            words.insert(d.int(0, len(words)), d.choice(['--verbose', '--verbose', '--verbose', '--color', '--color', '--supress', '-C', '-p', '--matcher-help', '-h', '--help', '-f', '-b']))
+        return words
 
     def execute(self, after):
         res = Result()
